@@ -17,7 +17,7 @@ CLAIMED = {
             "Given rowan concatenates token texts in insertion order; standalone type/selection trees are not claimed by the property.",
             "affine (move) dataflow + must-pass-through + who-writes rules over rustc MIR", False),
     "C04": ("other",
-            "Increment/decrement pairing on all CFG paths of all grammar functions, strict comparator and single undo in the tracker, stop flag of the lexer, error muting, and provenance of the reported counters from the parser's trackers to the compiler's *_reached figures.",
+            "Increment/decrement pairing on all CFG paths of all grammar functions, strict comparator and single undo in the tracker, stop flag of the lexer, error muting, the constructor of the limit error (Error::limit on every path of limit_err, so is_limit() holds also at end of input), and provenance of the reported counters from the parser's trackers to the compiler's *_reached figures.",
             "Decides the mechanism on all paths; which constructs count as nesting is given by the guarded call-graph edges and not compared with a reference.",
             "count-lattice dataflow (PAIR), comparator normalisation, who-writes, access-path provenance over rustc MIR", False),
     "C07": ("other",
@@ -93,7 +93,7 @@ CLAIMED = {
             "Necessary conditions of idempotence (who writes, what the bookkeeping decides, that all references are recorded); equality of the schema before and after re-validation is not decided.",
             "decision tables from MIR path enumeration, loop-relative must-pass-through, may-derive slices, who-writes and type facts", False),
     "C12": ("other",
-            "Structural necessary conditions of `no component is lost, duplicated or reordered between a Schema and its serialized definitions and extensions`: insertion-ordered collection types, no order-perturbing operation on component collections anywhere in the crate, the definition/extension split of all 7 to_ast implementations (same-named source field, None vs Some(ext) selector, filter/map/collect helper shape), coverage of every component collection by iter_origins, variant dispatch, root-operation pairing, the conditions under which the schema definition is omitted, and the extension emission order (first occurrence over a chain of collections, which cannot agree with every collection's order: five genuine reorderings listed as known findings).",
+            "Structural necessary conditions of `no component is lost, duplicated or reordered between a Schema and its serialized definitions and extensions`: insertion-ordered collection types, no order-perturbing operation on component collections anywhere in the crate, the definition/extension split of all 7 to_ast implementations (same-named source field, None vs Some(ext) selector, filter/map/collect helper shape), coverage of every component collection by iter_origins, variant dispatch, root-operation pairing, the conditions under which the schema definition is omitted (all conjuncts present; per operation type an Option *equality* between the schema's root and the root an implicit definition would give), and the extension emission order (first occurrence over a chain of collections, which cannot agree with every collection's order: five genuine reorderings listed as known findings).",
             "Round-trip equality and validity after the round trip are not decided; AST printing itself belongs to C08/C09. Known findings: extension order for Object/Interface/Union/Enum/InputObject types, see known_findings.json.",
             "ADT field type facts + resolved-callee inventory + symbolic (access-path) evaluation of straight-line iterator pipelines and aggregates over rustc MIR; dominating-edge facts for the implicit-definition decision", False),
     "C23": ("other",
@@ -101,7 +101,7 @@ CLAIMED = {
             "Given Name::try_from == the Name grammar (C10) and IndexMap::get semantics. The interpretation is symbolic over templates and is exact because delimiters are outside the Name alphabet; strings that are not UTF-8 sequences of names and delimiters are rejected by Name::try_from and are not enumerated.",
             "symbolic interpretation of HIR (straight-line string-splitting parsers) over hole/literal templates + format-template decoding + MIR decision tables per enum variant and access-path provenance of call arguments", False),
     "C26": ("other",
-            "Decision tables and provenance facts of the executor: try_nullify's 3-row table and, for every call of it, that the type used to nullify a value is the type the value was completed with (list item vs list, field definition); argument-coercion errors and null leaves follow the field/type nullability; data = result.ok(); every field error (39 sites) is built with the enclosing position's path or the list-index-extended path, paths are extended by the response key / list index exactly once and reversed once; DoesFragmentTypeApply as a table over ExtendedType; CollectFields' skip/include defaults, grouping by response key in an insertion-ordered map, first-visit / type-condition guards and unchanged recursion arguments; eval_if_arg; result coercion of the five built-in scalars and enums.",
+            "Decision tables and provenance facts of the executor: try_nullify's 3-row table and, for every call of it, that the type used to nullify a value is the type the value was completed with (list item vs list, field definition); argument-coercion errors and null leaves follow the field/type nullability; data = result.ok(); every field error (39 sites) is built with the enclosing position's path or the list-index-extended path, paths are extended by the response key / list index exactly once and reversed once; DoesFragmentTypeApply as a table over ExtendedType; CollectFields' skip/include defaults, grouping by response key in an insertion-ordered map, first-visit / type-condition guards and unchanged recursion arguments; eval_if_arg; result coercion of the five built-in scalars and enums; coerce_argument_values as the 128-row decision table of CoerceArgumentValues() (provided / variable or literal / variable present / nulls / non-null type / default) looked up among the CFG paths of one loop iteration.",
             "Response equality with a reference executor, merging of sub-selections and resolver behaviour are not decided. The rules read async fns from typed HIR (names intact) and plain fns from MIR.",
             "decision-table extraction (MIR path enumeration), dominating-edge facts, and access-path / local-identity provenance over typed HIR of the async executor functions", False),
     "C18": ("other",
